@@ -69,14 +69,14 @@ def _update_gaps(self, timestamp, newest, record_as_missing):
         if not found_in_gaps:
             self._gaps.append(Gap(start=HOLE_missing_s, end=HOLE_missing_e))
         self._cleanup_gaps()
-    elif HOLE_no_jump:
+    elif HOLE_jump:
+        self._gaps = [Gap(start=HOLE_jump_s, end=HOLE_jump_e)]
+    else:
         if HOLE_created:
             self._gaps.append(Gap(start=HOLE_created_s, end=HOLE_created_e))
         if len(self._gaps) > 0 and found_in_gaps:
             self._remove_gap(timestamp)
         self._cleanup_gaps()
-    else:
-        self._gaps = [Gap(start=HOLE_jump_s, end=HOLE_jump_e)]
 """
 
 SK_IS_MISSING = """
@@ -90,7 +90,7 @@ def _cleanup_gaps(self):
     self._gaps = sorted(self._gaps, key=lambda x: x.start.timestamp())
     while i < len(self._gaps):
         w_1 = self._gaps[i]
-        if i < len(self._gaps) - 1:
+        if i + 1 < len(self._gaps):
             w_2 = self._gaps[i + 1]
         else:
             w_2 = None
@@ -98,9 +98,9 @@ def _cleanup_gaps(self):
             del self._gaps[i]
         elif HOLE_rolled:
             w_1.start = self._timestamp_oldest
-        elif w_2 and HOLE_subset:
+        elif w_2 is not None and HOLE_subset:
             del self._gaps[i + 1]
-        elif w_2 and HOLE_neighbor:
+        elif w_2 is not None and HOLE_neighbor:
             w_1.end = w_2.end
             del self._gaps[i + 1]
         else:
@@ -149,7 +149,8 @@ def generate(repo: pathlib.Path) -> str:
     # (in the normal form the branch that keeps the floor quotient comes first: the recorded test is the negation)
     emit_prop("normRoundUp", "(remainder numSamples half : Int)",
               prop(negate(h["keep"]), {"remainder": "remainder", "num_samples": "numSamples",
-                                       "self._sampling_period / 2": "half", "timedelta(0)": "(0)"}),
+                                       "self._sampling_period / 2": "half", "timedelta(0)": "(0)",
+                                       "truth:remainder": "remainder"}),
               "`normalize_timestamp`: when the floor quotient is incremented (`half` = `sampling_period / 2`, a timedelta "
               "true division: rounded half-to-even to a microsecond)")
 
@@ -159,7 +160,9 @@ def generate(repo: pathlib.Path) -> str:
     up = {k: v for k, v in COMMON.items() if k != "timestamp"} | {
         "self.normalize_timestamp(sample.timestamp)": "timestamp",
         "self._timestamp_oldest != self._TIMESTAMP_MAX": "(oldestIsMax = false)",
-        "self._timestamp_oldest == self._TIMESTAMP_MAX": "(oldestIsMax = true)"}
+        "self._timestamp_oldest == self._TIMESTAMP_MAX": "(oldestIsMax = true)",
+        "self._TIMESTAMP_MAX != self._timestamp_oldest": "(oldestIsMax = false)",
+        "self._TIMESTAMP_MAX == self._timestamp_oldest": "(oldestIsMax = true)"}
     emit_prop("updReject", "(timestamp oldest : Int) (oldestIsMax : Bool)", prop(h["reject"], up),
               "`update`: the sample is too old")
     emit_int("updNewest", "(selfNewest timestamp : Int)", tr(h["newest"], up), "`update`: new `_timestamp_newest`")
@@ -169,8 +172,7 @@ def generate(repo: pathlib.Path) -> str:
     # ---- _update_gaps
     h = holes("OrderedRingBuffer", "_update_gaps", SK_UPDATE_GAPS)
     ug = {**COMMON, "newest": "newest", "found_in_gaps": "(foundInGaps = true)"}
-    # (in the normal form the jump is the `else` branch: the recorded test is the negation)
-    emit_prop("ugJump", "(selfNewest newest fullRange : Int)", prop(negate(h["no_jump"]), ug),
+    emit_prop("ugJump", "(selfNewest newest fullRange : Int)", prop(h["jump"], ug),
               "`_update_gaps`: valid value so far ahead that every older slot leaves the window")
     emit_int("ugJumpStart", "(oldest selfNewest : Int)", tr(h["jump_s"], ug), "start of the single gap after a jump")
     emit_int("ugJumpEnd", "(oldest selfNewest : Int)", tr(h["jump_e"], ug), "end of the single gap after a jump")
